@@ -1,4 +1,80 @@
-(* Props/C12.v — placeholder while the proofs are being written *)
-From PV Require Import Base.Prelude SV.SvSyntax SV.SvSizing SV.SvEval SV.SvDrivers.
-Example C12_placeholder : True. Proof. exact I. Qed.
-Print Assumptions C12_placeholder.
+(* Props/C12.v — property C12: the Yosys-compatible translation is equivalent, every variable has one driver, and each
+   flattened port (struct field, array element, interface member) carries exactly the bits of the corresponding slice of
+   the original port's packed value.
+   ONLY statements closed by exact + Print Assumptions.  The behavioural part uses the same semantics model and the same
+   acceptors as C03 (the Yosys backend emits the same statement forms over flattened variables); harness/c12.py replays the
+   real emitted text against the pymtl3 simulation, with every flattened port driven / compared by the slice below. *)
+From Coq Require Import FMapPositive.
+From PV Require Import Base.Prelude Bits.BitsSpec Struct.Shape Struct.Layout Struct.LayoutProofs
+                       SV.SvSyntax SV.SvSizing SV.SvEval SV.SvDrivers SV.SvProofs SV.Flat.
+Open Scope Z_scope.
+
+(* ---- the flat port map, for EVERY struct shape (fields, nested structs, list fields of any length and nesting) ---- *)
+(* the flattened port of leaf r carries flat_value b r = bits [rlo r, rhi r) of the packed value b; for a value v of
+   shape T the leaf at path r holds exactly that slice of pack T v (= to_bits) *)
+Theorem C12_flat_port_carries_slice T v r : wf T = true -> typed T v = true -> In r (leaf_ranges T) ->
+  shape_at T (rpath r) = Some (SBits (rhi r - rlo r)) /\
+  leaf_at v (rpath r) = Some (flat_value (pack T v) r).
+Proof. exact (flat_port_carries_slice T v r). Qed.
+Theorem C12_flat_port_bits T v r : wf T = true -> typed T v = true -> In r (leaf_ranges T) ->
+  exists u, leaf_at v (rpath r) = Some u /\ 0 <= u < 2 ^ (rhi r - rlo r) /\
+            forall i, rlo r <= i < rhi r -> Z.testbit (pack T v) i = Z.testbit u (i - rlo r).
+Proof. exact (flat_port_bits T v r). Qed.
+(* layout: the first field is the most significant, list element 0 the least significant *)
+Theorem C12_layout_order T r1 r2 : wf T = true -> In r1 (leaf_ranges T) -> In r2 (leaf_ranges T) ->
+  above (rpath r1) (rpath r2) -> rhi r2 <= rlo r1.
+Proof. exact (leaf_ranges_order T r1 r2). Qed.
+(* the slices are disjoint, non-empty, inside the port, and together cover it *)
+Theorem C12_flat_ranges_cover T i : wf T = true -> 0 <= i < width T -> exists r, In r (leaf_ranges T) /\ rlo r <= i < rhi r.
+Proof. exact (flat_ranges_cover T i). Qed.
+Theorem C12_flat_ranges_disjoint T r1 r2 i : wf T = true -> In r1 (leaf_ranges T) -> In r2 (leaf_ranges T) ->
+  rlo r1 <= i < rhi r1 -> rlo r2 <= i < rhi r2 -> r1 = r2.
+Proof. exact (flat_ranges_disjoint T r1 r2 i). Qed.
+Theorem C12_flat_ranges_bounds T r : wf T = true -> In r (leaf_ranges T) -> 0 <= rlo r /\ rlo r < rhi r /\ rhi r <= width T.
+Proof. exact (flat_ranges_bounds T r). Qed.
+(* flatten / unflatten: the packed internal form the emitted `assign x[hi-1:lo] = x__leaf;` build from the flattened ports
+   is the packed value, and flattening a reassembled value gives the ports back *)
+Theorem C12_unflatten_flatten T b : wf T = true -> 0 <= b < 2 ^ (width T) -> unflatten (leaf_ranges T) (flatten T b) = b.
+Proof. exact (unflatten_flatten T b). Qed.
+Theorem C12_unflatten_leaves_is_pack T v : wf T = true -> typed T v = true ->
+  unflatten (leaf_ranges T) (flatten T (pack T v)) = pack T v.
+Proof. exact (unflatten_leaves_is_pack T v). Qed.
+Theorem C12_flatten_unflatten T vs : wf T = true -> Forall2 in_leaf (leaf_ranges T) vs ->
+  flatten T (unflatten (leaf_ranges T) vs) = vs.
+Proof. exact (flatten_unflatten T vs). Qed.
+
+(* ---- behaviour and drivers: as C03 ---- *)
+Theorem C12_selfdet_eq_ctx te en e w : tenv_ok te -> uniform te e = true -> selfw te e = w ->
+  eval_ctx te en w e = eval_sd te en e.
+Proof. exact (sv_selfdet_eq_ctx te en e w). Qed.
+Theorem C12_eval_range te en e W : 0 <= W -> 0 <= eval te en W e < 2 ^ W.
+Proof. exact (sv_eval_range te en e W). Qed.
+Theorem C12_ff_block_reads_pre_edge te body st : Forall (fun s => nb_only s = true) body ->
+  x_env (exec_list te body st) = x_env st.
+Proof. intros H. exact (nb_block_env te body H st). Qed.
+Theorem C12_nonblocking_last_wins x w v u p en : 0 <= w -> PM.find x (commit p en) = Some (VZ u) ->
+  read_bits (commit (p ++ [(scalar_ref x w, VZ v)]) en) (scalar_ref x w) = v mod 2 ^ w.
+Proof. exact (nonblocking_last_wins x w v u p en). Qed.
+Theorem C12_single_driver F m : sv_single_driver F m = true ->
+  forall dc, In dc (mod_vars m) -> forall b, 0 <= b < vbits (d_ty dc, d_dims dc) ->
+  exists k d, nth_error (drivers F m) k = Some d /\ drives d (d_id dc) b = true /\
+    forall k' d', nth_error (drivers F m) k' = Some d' -> drives d' (d_id dc) b = true -> k' = k.
+Proof. exact (sv_single_driver_sound F m). Qed.
+
+(* ---- non-vacuity ---- *)
+(* Outer { p : Pt { a : Bits8; b : Bits4 }; c : Bits4; v : [Bits4, Bits4, Bits4] }   (28 bits) *)
+Definition exT : shape := SStruct [SStruct [SBits 8; SBits 4]; SBits 4; SList 3 (SBits 4)].
+Definition exV : Shape.value := VStruct [VStruct [VBits 171; VBits 12]; VBits 13; VList [VBits 1; VBits 2; VBits 3]].
+Example C12_nonvacuous :
+  wf exT = true /\ typed exT exV = true /\ pack exT exV = 0xABCD321 /\
+  leaf_ranges exT = [([Fld 0%nat; Fld 0%nat], 20, 28); ([Fld 0%nat; Fld 1%nat], 16, 20); ([Fld 1%nat], 12, 16);
+                     ([Fld 2%nat; Idx 2%nat], 8, 12); ([Fld 2%nat; Idx 1%nat], 4, 8); ([Fld 2%nat; Idx 0%nat], 0, 4)] /\
+  flatten exT 0xABCD321 = [171; 12; 13; 3; 2; 1] /\
+  unflatten (leaf_ranges exT) [171; 12; 13; 3; 2; 1] = 0xABCD321.
+Proof. vm_compute. repeat split. Qed.
+
+Print Assumptions C12_flat_port_carries_slice. Print Assumptions C12_flat_port_bits. Print Assumptions C12_layout_order.
+Print Assumptions C12_flat_ranges_cover. Print Assumptions C12_flat_ranges_disjoint. Print Assumptions C12_flat_ranges_bounds.
+Print Assumptions C12_unflatten_flatten. Print Assumptions C12_unflatten_leaves_is_pack. Print Assumptions C12_flatten_unflatten.
+Print Assumptions C12_selfdet_eq_ctx. Print Assumptions C12_eval_range. Print Assumptions C12_ff_block_reads_pre_edge.
+Print Assumptions C12_nonblocking_last_wins. Print Assumptions C12_single_driver.
